@@ -82,9 +82,16 @@ Inductive aact :=
 | XRet (n : nat)          (* one step of the retention scanner goroutine (n: mailboxes at scan start) *)
 | XMain.                  (* main() gets through its next wait *)
 
+(** Drain = Server.wg.Wait(). There are no sessions in this model; what the WaitGroup holds here is
+    the accept loop's own count (repair 0022): from the moment Start has bound the listener and
+    started the loop until the loop exits because the listener was closed. A server whose Start has
+    not got that far, or whose bind failed, holds nothing. *)
+Definition loop_counted (p : bphase) : bool := match p with BBound | BReady => true | _ => false end.
+
 Definition wait_ok (y : asys) (w : wait) : bool :=
   match w with
-  | WSmtpDrain | WPop3Drain => true          (* no sessions here: the WaitGroup is at zero *)
+  | WSmtpDrain => negb (loop_counted (p_smtp y))
+  | WPop3Drain => negb (loop_counted (p_pop3 y))
   | WRetJoin => match a_ret y with Some RStopped => true | _ => false end
   end.
 
@@ -161,7 +168,8 @@ Definition boot_acts : list aact :=
    XFwd CSmtp; XFwd CPop3; XFwd CWeb].
 
 Definition shutdown_acts (sh : shape) : list aact :=
-  [XCancel; XClose CWeb; XClose CSmtp; XClose CPop3; XHubStop; XRet 0; XRet 0] ++ map (fun _ => XMain) (sh_waits sh).
+  [XCancel; XBind CWeb; XBind CSmtp; XBind CPop3; XReadyCall CWeb; XReadyCall CSmtp; XReadyCall CPop3;
+   XClose CWeb; XClose CSmtp; XClose CPop3; XHubStop; XRet 0; XRet 0] ++ map (fun _ => XMain) (sh_waits sh).
 
 Record boot_obs := mkBO { bo_ready : bool; bo_notified : bool; bo_returns : bool; bo_stuck_at : option wait }.
 
